@@ -176,7 +176,7 @@ func runCase(bin, dir string, c Case, rep, defTimeout, limit int) Result {
 	} else {
 		cmd.Stdin = bytes.NewReader(stdin)
 	}
-	cmd.WaitDelay = 200 * time.Millisecond
+	cmd.WaitDelay = 10 * time.Second // only bounds the copying of the pipes after the process has exited
 	t0 := time.Now()
 	err := cmd.Run()
 	ms := float64(time.Since(t0).Microseconds()) / 1000
